@@ -37,7 +37,79 @@ Theorem C16_name_roundtrip : forall sp fixed infix,
   full_infix sp fixed (as_name sp fixed (Some infix)) = Some infix.
 Proof. exact full_infix_as_name. Qed.
 
+Require Import FL.Fs.Fs FL.Flw.Run FL.Flw.NumInv FL.Flw.NumRun FL.Flw.NumRestart FL.Flw.NumDInv FL.Flw.NumDRun FL.Flw.TsTime FL.Flw.TsNames FL.Flw.TsInv FL.Flw.TsRun FL.Flw.TsTheorems FL.Flw.TsReader FL.Flw.NumCleanupNames FL.Flw.NumCleanupStep FL.Flw.NumCleanupRun FL.Flw.NumCleanup FL.Flw.NoPanic FL.Flw.NamesDocumented FL.Flw.ListingExact FL.Oracles.O_Names.
+(* END TO END: every file that any history of a Numbers-naming writer leaves is named as documented (the oracle name_documented that
+   is applied to the implementation accepts it); hypothesis: the suffix does not end in .gz *)
+Theorem C16_numbers_names_documented c crit t0 off ops :
+  numcfg c crit -> not_gz c -> Forall basic_op ops ->
+  all_documented c (wfs (s_w (fst (run (sys0 t0 off) (OStart c :: ops ++ [OStop]))))).
+Proof. exact (numbers_names_documented c crit t0 off ops). Qed.
+
+(* ... also with a cleanup strategy (archives) *)
+Theorem C16_numbers_cleanup_names_documented c crit k t0 off ops :
+  numkcfg c crit k -> not_gz c -> Forall basic_op ops ->
+  kside c k (nclosed (a_run None ops (snd (run (fst (step (sys0 t0 off) (OStart c))) ops)))) ->
+  all_documented c (wfs (s_w (fst (run (sys0 t0 off) (OStart c :: ops ++ [OStop]))))).
+Proof. exact (numbers_cleanup_names_documented c crit k t0 off ops). Qed.
+
+(* NumbersDirect naming *)
+Theorem C16_numbersdirect_names_documented c crit t0 off ops :
+  numdcfg c crit -> not_gz c -> Forall basic_op ops ->
+  all_documented c (wfs (s_w (fst (run (sys0 t0 off) (OStart c :: ops ++ [OStop]))))).
+Proof. exact (numbersdirect_names_documented c crit t0 off ops). Qed.
+
+(* Timestamps naming *)
+Theorem C16_timestamps_names_documented c crit t0 off ops :
+  tscfg c crit -> tag_ok c -> not_gz c -> Forall basic_op ops -> Forall tick_ok ops ->
+  (0 <= t0 + ts_e c off)%Z -> (t0 + elapsed ops + ts_e c off < sec_max)%Z -> (N.of_nat (length ops) <= usize_max)%N ->
+  all_documented c (wfs (s_w (fst (run (sys0 t0 off) (OStart c :: ops ++ [OStop]))))).
+Proof. exact (timestamps_names_documented c crit t0 off ops). Qed.
+
+(* existing_log_files returns exactly the existing family files that the selector asks for: Numbers naming, any cleanup strategy,
+   every history, every selector (custom current infix: not a number infix, and not rCURRENT together with with_r_current) *)
+Theorem C16_numbers_listing_exact c crit k t0 off ops sel :
+  numkcfg c crit k -> not_gz c -> Forall basic_op ops -> custom_ok sel ->
+  kside c k (nclosed (a_run None ops (snd (run (fst (step (sys0 t0 off) (OStart c))) ops)))) ->
+  let x := fst (run (sys0 t0 off) (OStart c :: ops)) in
+  exists l, step x (OQuery sel) = (x, ObsList 0%N l)
+            /\ oracle_listing sel c (snap_of x) l = true
+            /\ sort_names l = expected_listing sel c (snap_of x).
+Proof. exact (numbers_listing_exact c crit k t0 off ops sel). Qed.
+
+(* NumbersDirect naming *)
+Theorem C16_numbersdirect_listing_exact c crit t0 off ops sel :
+  numdcfg c crit -> not_gz c -> Forall basic_op ops -> custom_ok_d sel ->
+  let x := fst (run (sys0 t0 off) (OStart c :: ops)) in
+  exists l, step x (OQuery sel) = (x, ObsList 0%N l)
+            /\ oracle_listing sel c (snap_of x) l = true
+            /\ sort_names l = expected_listing sel c (snap_of x).
+Proof. exact (numbersdirect_listing_exact c crit t0 off ops sel). Qed.
+
+(* Timestamps naming *)
+Theorem C16_timestamps_listing_exact c crit t0 off ops sel :
+  tscfg c crit -> tag_ok c -> not_gz c -> Forall basic_op ops -> Forall tick_ok ops -> custom_ok_ts sel ->
+  (0 <= t0 + ts_e c off)%Z -> (t0 + elapsed ops + ts_e c off < sec_max)%Z -> (N.of_nat (length ops) <= usize_max)%N ->
+  let x := fst (run (sys0 t0 off) (OStart c :: ops)) in
+  exists l, step x (OQuery sel) = (x, ObsList 0%N l)
+            /\ oracle_listing sel c (snap_of x) l = true
+            /\ sort_names l = expected_listing sel c (snap_of x).
+Proof. exact (timestamps_listing_exact c crit t0 off ops sel). Qed.
+
 Check C16_stem_ext_roundtrip. Check C16_doc_fixed_is_fixed.
 Print Assumptions C16_stem_ext_roundtrip.
 Print Assumptions C16_doc_fixed_is_fixed.
 Print Assumptions C16_name_roundtrip.
+Check C16_numbers_names_documented.
+Print Assumptions C16_numbers_names_documented.
+Check C16_numbers_cleanup_names_documented.
+Print Assumptions C16_numbers_cleanup_names_documented.
+Check C16_numbersdirect_names_documented.
+Print Assumptions C16_numbersdirect_names_documented.
+Check C16_timestamps_names_documented.
+Print Assumptions C16_timestamps_names_documented.
+Check C16_numbers_listing_exact.
+Print Assumptions C16_numbers_listing_exact.
+Check C16_numbersdirect_listing_exact.
+Print Assumptions C16_numbersdirect_listing_exact.
+Check C16_timestamps_listing_exact.
+Print Assumptions C16_timestamps_listing_exact.
